@@ -236,7 +236,9 @@ func c03(c *eng.Ctx) {
 
 	// ---- R3
 	if ma := c.MustMethod(pkgClusters, "ClusterInfo", "MatchAttributes"); ma != nil {
-		stores := eng.StoresToField([]*ssa.Function{ma}, tPickStrategy, "upstreams")
+		// the picker may be built in MatchAttributes itself or in a helper extracted from it
+		stores := eng.StoresToField(c.W.Region(ma), tPickStrategy, "upstreams")
+		slUp := sl.WithUp()
 		subsetSeen, allSeen := false, false
 		for _, st := range stores {
 			fromSubset := sl.DerivesFrom(st.Val, func(v ssa.Value) bool {
@@ -278,7 +280,7 @@ func c03(c *eng.Ctx) {
 		// the policy is MatchPolicies' result
 		polOK := false
 		for _, st := range stores {
-			if sl.DerivesFrom(st.Val, func(v ssa.Value) bool {
+			if slUp.DerivesFrom(st.Val, func(v ssa.Value) bool {
 				cc, _ := eng.CallResultOf(v)
 				return cc != nil && eng.IsCall(cc, pkgClusters+".MatchPolicies")
 			}) {
@@ -304,10 +306,10 @@ func c03(c *eng.Ctx) {
 				return cc == pop && idx == 1
 			}
 			c.Pass("R4", sh, "single Pop", pop.Pos(), "")
-			sa := c.Slicer().WithArgs()
-			// URL scheme/host
+			sa := c.Slicer().WithArgs().WithUp()
+			// URL scheme/host (the URL may be assembled in a helper extracted from ServeHTTP)
 			for _, f := range []string{"Scheme", "Host"} {
-				sts := eng.StoresToField(eng.WithClosures(sh), "net/url.URL", f)
+				sts := eng.StoresToField(c.W.Region(sh), "net/url.URL", f)
 				ok := len(sts) > 0
 				for _, st := range sts {
 					fromPop := false
@@ -591,7 +593,9 @@ func c14(c *eng.Ctx) {
 		case fn.Name() == "NewEmptyClusterInfo":
 			ok = true
 		case fn.Name() == "syncEndpoints" && eng.TypeName(fn.Signature.Recv().Type()) == tClusterInfo:
-			// unreachable when neither "added" nor "deleted" is non-empty: cut the true edges of every `X.Len() > 0` test
+			// unreachable when neither "added" nor "deleted" is non-empty: assume every `X.Len() > 0`
+			// test false (also when named through a local or combined by ||) and cut the edges that
+			// this assumption makes infeasible
 			reach := eng.ReachFromEntry(fn, eng.PathQuery{
 				Target: func(x ssa.Instruction) bool { return x == ssa.Instruction(st) },
 				BlockEdge: func(from *ssa.BasicBlock, idx int) bool {
@@ -599,10 +603,21 @@ func c14(c *eng.Ctx) {
 					if !isIf {
 						return false
 					}
-					r := eng.RelOf(iff.Cond, idx == 0)
-					cc, _ := eng.CallResultOf(r.X)
-					z, isZ := eng.IntConst(r.Y)
-					return cc != nil && eng.MethodNameIs(cc, "Len") && isZ && z == 0 && r.Op == token.GTR
+					cond, neg := iff.Cond, false
+					for {
+						if u, isU := cond.(*ssa.UnOp); isU && u.Op == token.NOT {
+							cond, neg = u.X, !neg
+							continue
+						}
+						break
+					}
+					if !c14AssumedFalse(cond, map[ssa.Value]bool{}) {
+						return false
+					}
+					if neg {
+						return idx == 1
+					}
+					return idx == 0
 				},
 			})
 			ok = reach == nil
@@ -610,4 +625,59 @@ func c14(c *eng.Ctx) {
 		}
 		c.Check("R2", fn, fmt.Sprintf("balancer map replaced only on a server-set change#%d", i+1), st.Pos(), ok, why)
 	}
+}
+
+// c14AssumedFalse: v is false under the assumption that no set is non-empty (every
+// `X.Len() > 0` / `0 < X.Len()` / `X.Len() != 0` is false): such a comparison itself, the
+// constant false, or a phi all of whose feasible edges carry such values (the constant-true
+// edge of `a || b` comes from the true branch of `a`, infeasible under the assumption).
+func c14AssumedFalse(v ssa.Value, seen map[ssa.Value]bool) bool {
+	if seen[v] {
+		return true
+	}
+	seen[v] = true
+	switch x := v.(type) {
+	case *ssa.Const:
+		return eng.IsBoolConst(x, false)
+	case *ssa.BinOp:
+		isLen := func(y ssa.Value) bool {
+			cc, _ := eng.CallResultOf(y)
+			return cc != nil && eng.MethodNameIs(cc, "Len")
+		}
+		isZero := func(y ssa.Value) bool { z, ok := eng.IntConst(y); return ok && z == 0 }
+		switch {
+		case isLen(x.X) && isZero(x.Y):
+			return x.Op == token.GTR || x.Op == token.NEQ
+		case isZero(x.X) && isLen(x.Y):
+			return x.Op == token.LSS || x.Op == token.NEQ
+		}
+	case *ssa.Phi:
+		for i, e := range x.Edges {
+			pred := x.Block().Preds[i]
+			if iff, ok := pred.Instrs[len(pred.Instrs)-1].(*ssa.If); ok {
+				cond, neg := iff.Cond, false
+				for {
+					if u, isU := cond.(*ssa.UnOp); isU && u.Op == token.NOT {
+						cond, neg = u.X, !neg
+						continue
+					}
+					break
+				}
+				if c14AssumedFalse(cond, seen) {
+					infeasible := pred.Succs[0]
+					if neg {
+						infeasible = pred.Succs[1]
+					}
+					if infeasible == x.Block() && pred.Succs[0] != pred.Succs[1] {
+						continue
+					}
+				}
+			}
+			if !c14AssumedFalse(e, seen) {
+				return false
+			}
+		}
+		return true
+	}
+	return false
 }
